@@ -25,11 +25,12 @@ class EnumDef:
     spell: str = '='            # 'exhaustive = x' or 'exhaustive: x'
     omit_exh: bool = False      # leave out the exhaustive argument (means false)
     native_name: bool = True    # (kept for clarity) storage written as uN
+    dead_first: bool = False    # declare the #[cfg(any())] variants before the live ones (they may share discriminants with live ones)
 
     @property
     def name(self):
         import hashlib
-        h = hashlib.sha1(repr((self.n, self.exhaustive, self.discs, self.dead, self.spell, self.omit_exh)).encode()).hexdigest()[:8]
+        h = hashlib.sha1(repr((self.n, self.exhaustive, self.discs, self.dead, self.spell, self.omit_exh, self.dead_first)).encode()).hexdigest()[:8]
         return f"E{self.n}_{h}"
 
 
